@@ -203,7 +203,11 @@ pub fn operation(p: &mut Parser<'_>, mut skip: Skip) -> Result<Option<Skip>> {
 
         let (priority, operator, extra, cur_skip) = match op(p) {
             Some(out) => out,
-            None => break,
+            None => {
+                // The skip handed to the last operand has been consumed.
+                skip = p.count_skip();
+                break;
+            }
         };
 
         if std::mem::take(&mut first) {
